@@ -94,6 +94,9 @@ func obsTags(o TextObs, texts []c17.PkgText) []string {
 	if !o.Positioned {
 		if builderRefusal(o) {
 			tags = append(tags, "C16-F1b:builder-refusal-without-position")
+		} else if o.Stage == "build" && len(o.Unpositioned) == 1 && (strings.HasSuffix(o.Unpositioned[0], "unsupported operation: REVOKE Inherits") ||
+			strings.HasPrefix(o.Unpositioned[0], "invalid application definition: not found: field «sys.")) {
+			tags = append(tags, "C16-F24:revoke-role-or-missing-sys-field-without-position")
 		} else if o.Stage == "build" && len(o.Unpositioned) == 1 && unpositionedRefusal(o.Unpositioned[0]) {
 			// four more refusals of the definition builder that the parser could have stated with a position
 			tags = append(tags, "C16-F19:builder-refusal-without-position-2")
@@ -212,6 +215,12 @@ func genText(name string) []c17.PkgText {
 	if f := strings.Split(name, ":"); len(f) == 3 && f[0] == "doubling" { // doubling:<levels>:<types|table|unique|grant>
 		if k, err := strconv.Atoi(f[1]); err == nil {
 			return doublingFieldSets(k, f[2])
+		}
+		return nil
+	}
+	if strings.HasPrefix(name, "deep-workspaces-semicolons:") {
+		if k, err := strconv.Atoi(name[len("deep-workspaces-semicolons:"):]); err == nil {
+			return withSys([]c17.PkgText{{Path: "github.com/verif/app1", Files: []string{"APPLICATION app1(); " + strings.Repeat("WORKSPACE W (; ", k)}}})
 		}
 		return nil
 	}
